@@ -305,7 +305,7 @@ def run(ctx):
                 "module / IR scope vs the must/may sandwich; non-trivial = "
                 "distinct (operation, exception, store size)")
     tie = core.BatchTie(ctx, "symexpr", "symexpr", flush_at=100)
-    for h in range(ctx.scale(250, 8000)):
+    for h in range(ctx.scale(500, 8000)):
         w = World(ctx.rng)
         script = []
         ok = True
